@@ -208,6 +208,7 @@ pub fn run(ctx: &mut Ctx) {
     ctx.floor("appdata.lengths", 500);
     ctx.floor("hs.variants_seen_first", 17);
     ctx.floor("max-count.records", 7);
+    ctx.floor("length-bitflips", 50_000);
 
     // ------------------------------------------------ all 65536 alerts singly (exhaustive)
     ctx.sweep("alerts-all", 256, |ctx, idx| {
@@ -292,6 +293,38 @@ pub fn run(ctx: &mut Ctx) {
                     run_case(ctx, ct, 0x0303, p, &msgs[..k], tail_len, if k == 0 { "truncated-first-message" } else { "truncated-later-message" }, if tail_len == 0 { Tail::None } else { Tail::HsCut });
                 }
             }
+        }
+    });
+
+
+    // ------------------------------------------------ every single-bit flip of the LAST message's 24-bit length that makes it
+    // larger: the message is then cut short by the record end (also when the excess is k*256 or k*65536)
+    let n = ctx.tier.pick(8_000, 80_000);
+    ctx.family("length-bitflips", n, |ctx, case: &mut Case| {
+        let r = &mut case.rng;
+        let msgs = gen::msg_list(r, gen::TINY, 0x16);
+        let mut w = refenc::W::new();
+        let mut starts = Vec::new();
+        for m in &msgs {
+            starts.push(w.b.len());
+            m.enc(&mut w);
+        }
+        let last_start = *starts.last().unwrap();
+        // the handshake_length field of the last message
+        let f = match w.lens.iter().filter(|f| f.name == "handshake_length" && f.off == last_start + 1).next() {
+            Some(f) => f.clone(),
+            None => return,
+        };
+        for bit in 0..24 {
+            let nv = f.val ^ (1u64 << bit);
+            if nv <= f.val {
+                continue;
+            }
+            let mut payload = w.b.clone();
+            refenc::set_len(&mut payload, &f, nv);
+            let k = msgs.len() - 1;
+            run_case(ctx, 0x16, 0x0303, &payload, &msgs[..k], payload.len() - last_start, if k == 0 { "bitflip-first-message-length" } else { "bitflip-last-message-length" }, Tail::HsLenLiesUp);
+            ctx.count("length-bitflips");
         }
     });
 
